@@ -178,6 +178,77 @@ func c14router(minDelay, maxJitter time.Duration, n, bound int) *explore.Scenari
 	return sc
 }
 
+// c14twoRouters: a LAN router behind the root, both with a minimum delay: each counts from
+// the moment the datagram entered *it*.
+func c14twoRouters(d1, d2 time.Duration, n, bound int) *explore.Scenario {
+	sc := &explore.Scenario{Name: fmt.Sprintf("routers lan minDelay=%v -> root minDelay=%v n=%d", d1, d2, n), Bound: bound}
+	sc.Cfg.Horizon = 30 * time.Second
+	sc.Cfg.RandMenu = func(k int64) []int64 { return []int64{0} }
+	sc.Make = func() (func(), func(*zzvsched.Exec) (string, *explore.Violation)) {
+		rec := vnet.ZZNewRecNIC("1.2.3.9")
+		var sentAt []time.Duration
+		wrote := 0
+		body := func() {
+			root, err := vnet.NewRouter(&vnet.RouterConfig{CIDR: "1.2.3.0/24", MinDelay: d2, LoggerFactory: logging.NewDefaultLoggerFactory()})
+			if err != nil {
+				panic(err)
+			}
+			lan, err := vnet.NewRouter(&vnet.RouterConfig{CIDR: "10.0.0.0/24", MinDelay: d1, LoggerFactory: logging.NewDefaultLoggerFactory()})
+			if err != nil {
+				panic(err)
+			}
+			if err := root.AddRouter(lan); err != nil {
+				panic(err)
+			}
+			n1, _ := vnet.NewNet(&vnet.NetConfig{StaticIPs: []string{"10.0.0.1"}})
+			_ = lan.AddNet(n1)
+			_ = root.AddNet(rec)
+			if err := root.Start(); err != nil {
+				panic(err)
+			}
+			c, err := n1.ListenUDP("udp", &net.UDPAddr{IP: net.ParseIP("10.0.0.1"), Port: 1000})
+			if err != nil {
+				panic(err)
+			}
+			dst := &net.UDPAddr{IP: net.ParseIP("1.2.3.9"), Port: 2000}
+			for i := 0; i < n; i++ {
+				if i > 0 {
+					zzvsched.Sleep(d1 / 2)
+				}
+				sentAt = append(sentAt, zzvsched.Elapsed())
+				if _, err := c.WriteTo([]byte(fmt.Sprintf("p%d", i)), dst); err != nil {
+					panic(err)
+				}
+				wrote++
+			}
+		}
+		check := func(ex *zzvsched.Exec) (string, *explore.Violation) {
+			out := fmt.Sprint(len(rec.Got))
+			pre := sc.Name + ": "
+			if len(ex.Panics) > 0 {
+				return out, &explore.Violation{Sig: "C14 panic router", Msg: pre + "panic: " + ex.Panics[0].Value}
+			}
+			if ex.HorizonHit {
+				return out + " HORIZON", nil
+			}
+			for i, g := range rec.Got {
+				if string(g.Payload) != fmt.Sprintf("p%d", i) {
+					return out, &explore.Violation{Sig: "C14 order-or-duplicate router", Msg: pre + "forwarded out of order"}
+				}
+				if g.At < sentAt[i]+d1+d2 {
+					return out, &explore.Violation{Sig: "C14 early router", Msg: pre + fmt.Sprintf("datagram %d was written at %v and left the second router at %v: less than the sum of the two minimum delays, so one router forwarded it sooner than its delay after it entered that router", i, sentAt[i], g.At)}
+				}
+			}
+			if wrote == n && len(rec.Got) != n {
+				return out, &explore.Violation{Sig: "C14 not-forwarded router", Msg: pre + fmt.Sprintf("%d of %d never forwarded", n-len(rec.Got), n)}
+			}
+			return out, nil
+		}
+		return body, check
+	}
+	return sc
+}
+
 func init() {
 	register(&Check{ID: "C14",
 		Scenarios: func(tier string) []*explore.Scenario {
@@ -194,6 +265,7 @@ func init() {
 					out = append(out, c14router(md, j, 3, b))
 				}
 			}
+			out = append(out, c14twoRouters(time.Millisecond, 20*time.Millisecond, 2, 1), c14twoRouters(10*time.Millisecond, time.Millisecond, 2, 1))
 			if tier == "thorough" {
 				out = append(out, c14filter(0, 3, 3, false), c14filter(500*time.Microsecond, 3, 3, false), c14router(time.Millisecond, 0, 3, 3))
 			}
